@@ -148,7 +148,45 @@ def same_state(a, b, trunk_order=False):
     return [k for k in keys if a[k] != b[k]]
 
 
+def level_criterion_stream(ctx):
+    """A user criterion that depends on the tree itself (here: on structure.level).  While prune() merges leaves the
+    cached levels it reads are those from before earlier merges (known finding K8), so afterwards a leaf may fail the
+    criterion on the returned tree and a second identical prune changes it again.  Oracle only."""
+    from astrodendro import Dendrogram
+    rng = ctx.rng('c07-level')
+    for it in range(60 if ctx.quick else 600):
+        n = rng.randint(5, 12)
+        vals = list(range(1, n + 1))
+        rng.shuffle(vals)
+        k = rng.randint(3, n)
+
+        def crit(structure, index=None, value=None, k=k):
+            return structure.vmax >= k - structure.level
+        try:
+            d = Dendrogram.compute(np.array(vals, dtype=float), min_value=0)
+            for s in d:
+                s.level
+            d.prune(is_independent=crit)
+            bad = [int(s.idx) for s in d.leaves if not crit(s)]
+            first = impl.impl_hierarchy(d, (n,))
+            d.prune(is_independent=crit)
+            second = impl.impl_hierarchy(d, (n,))
+        except Exception as e:
+            ctx.oracle_failure({'stream': 'level-criterion', 'vals': vals, 'k': k}, ['prune raised %r' % (e,)], {})
+            continue
+        ctx.count('level_criterion_cases')
+        ctx.case_done(None, ('level-crit', tuple(vals), k))
+        fails = []
+        if bad:
+            fails.append('after prune(is_independent: vmax >= %d - level) the leaves %s fail that criterion on the returned tree' % (k, bad))
+        if first != second:
+            fails.append('pruning again with the same criterion changes the tree: %s -> %s' % (first, second))
+        if fails:
+            ctx.oracle_failure({'stream': 'level-criterion', 'vals': vals, 'k': k}, fails, {'tag': 'K8'})
+
+
 def explore(ctx):
+    level_criterion_stream(ctx)
     rng = ctx.rng('c07')
     terms, meta = [], []
     n = 900 if ctx.quick else 9000
@@ -230,6 +268,8 @@ def explore(ctx):
 
 
 def matches_known(k, case, fails, extra):
+    if k['id'] == 'K8':
+        return (extra or {}).get('tag') == 'K8' and case.get('stream') == 'level-criterion'
     return False
 
 
